@@ -36,24 +36,25 @@ def parse_goals(out, max_per_goal=4):
     return res
 
 
-def goal_suffix(n):
+def goal_suffix(n, mods=False):
     """steps appended to a goal witness so that the real code has time to react: every process gets turns, the short
     timers fire, and more than the excusable margin (1 min + stall) passes"""
     st = lambda p: {"op": "step", "p": p, "x": False, "k": ""}
     w = {"op": "wait", "p": 0, "x": False, "k": ""}
     t = {"op": "tick", "p": 0, "x": False, "k": ""}
     turns = [st(p) for _ in range(2) for p in range(1, n + 1)]
-    return turns + [w] + turns + [w] + turns + [w] + turns + [t] + turns + [w] + turns + [t] + turns + [w]
+    m = [{"op": "mod", "p": p, "x": False, "k": ""} for p in range(1, n + 1)] if mods else []
+    return turns + [w] + turns + m + [w] + turns + [w] + turns + m + [t] + turns + [w] + turns + [t] + turns + m + [w]
 
 
 def gen_cfg(n, maxtime, budget, faults, toggles, removal, remotes, histmax, maxatt, crashes, startby, healodds=3,
-            maxskew=0, listlag="FALSE", fixskew="FALSE", edge="FALSE", startfrom=0):
+            maxskew=0, listlag="FALSE", fixskew="FALSE", edge="FALSE", startfrom=0, maxmods=0):
     return ("SPECIFICATION Spec\nCONSTANTS\n N = %d\n MaxTime = %d\n MaxSkew = %d\n Budget = %d\n Variant = \"code\"\n"
             " Faults <- %s\n MaxToggle = %d\n Removal = %s\n Remotes <- %s\n MaxWaits = 4\n HistMax = %d\n Emit = TRUE\n"
-            " MaxAtt = %d\n Crashes = %s\n StartBy = %d\n StartFrom = %d\n HealOdds = %d\n ListLag = %s\n FixSkew = %s\n Edge = %s\n"
+            " MaxAtt = %d\n Crashes = %s\n StartBy = %d\n StartFrom = %d\n HealOdds = %d\n ListLag = %s\n FixSkew = %s\n Edge = %s\n MaxMods = %d\n"
             "CHECK_DEADLOCK FALSE\n"
             % (n, maxtime, maxskew, budget, faults, toggles, removal, remotes, histmax, maxatt, crashes, startby, startfrom,
-               healodds, listlag, fixskew, edge))
+               healodds, listlag, fixskew, edge, maxmods))
 
 
 def generate(ctx, families, per_family, jobs=6):
@@ -116,7 +117,7 @@ def goal_scheds(design, attrs):
         a = dict(attrs.get(d["cfg"], {}))
         n = a.pop("n", 2)
         for j, (g, steps) in enumerate(d["goals"]):
-            res.append(dict({"id": "goal-%s-%s-%d" % (d["cfg"][5:-4], g, j), "fam": "goal", "n": n, "steps": steps + goal_suffix(n)}, **a))
+            res.append(dict({"id": "goal-%s-%s-%d" % (d["cfg"][5:-4], g, j), "fam": "goal", "n": n, "steps": steps + goal_suffix(n, a.get("sema", False))}, **a))
         d["goals"] = [g for g, _ in d["goals"]]
     return res
 
@@ -135,7 +136,7 @@ def holders(o):
 
 def slim(r, k=None):
     """replayable case: the schedule and the offending observation"""
-    c = {"id": r["id"], "fam": r["fam"], "n": r["n"], "sched": r["sched"], "out": r["out"], "probe": r["probe"], "logs": r.get("logs"), "errs": r.get("errs")}
+    c = {"id": r["id"], "fam": r["fam"], "n": r["n"], "sched": r["sched"], "out": r["out"], "probe": r["probe"], "logs": r.get("logs"), "errs": r.get("errs"), "mods": r.get("mods")}
     if k is not None:
         c["observation"] = r["obs"][k]
         c["observation_index"] = k
